@@ -33,6 +33,7 @@ type SubSpec struct {
 	NestedTopic   int  // publish a fresh message to this topic before acking (-1: no)
 	AfterPubs     int  // phase 1 only: subscribe once this many Publish calls were started (a backlog has built up)
 	PreCancel     bool // the Subscribe context is already cancelled when Subscribe is called
+	PlainCtx      bool // the Subscribe context cannot be cancelled at all (context.Background() with a value): the subscription ends with Close
 	NoRead        bool // the consumer does not read from its channel until a Close of the Pub/Sub has returned (senders stay blocked in the hand-over)
 	NestedFan     int  // on the first delivery additionally publish one message to each of this many other topics before acking
 }
@@ -264,7 +265,11 @@ func Run(sc Scenario) *Result {
 		mu.Lock()
 		recycle[thread] = msgs
 		mu.Unlock()
-		rec.Log("pc", itoa(pid), itoa(t), strings.Join(us, "+"), itoa(thread))
+		usStr := strings.Join(us, "+")
+		if batch == 0 {
+			usStr = "-" // a Publish call without messages (legal)
+		}
+		rec.Log("pc", itoa(pid), itoa(t), usStr, itoa(thread))
 		atomic.AddInt64(&pubStarted, 1)
 		out := "ok"
 		func() {
@@ -300,6 +305,10 @@ func Run(sc Scenario) *Result {
 			sid = int(atomic.AddInt64(&lateSid, 1)) - 1
 		}
 		ctx, cancel := context.WithCancel(context.WithValue(context.Background(), subCtxKey{}, sid))
+		if spec.PlainCtx {
+			cancel() // (the derived context is not used)
+			ctx, cancel = context.WithValue(context.Background(), subCtxKey{}, sid), func() {}
+		}
 		mu.Lock()
 		cancels[sid] = cancel
 		mu.Unlock()
@@ -653,6 +662,7 @@ func Run(sc Scenario) *Result {
 		go func() {
 			defer close(late)
 			publish(0, 1, 201)
+			publish(0, 0, 202) // … also a Publish call without messages
 			subscribe(SubSpec{Topic: 0, Phase: 3, CancelAtRecv: -1, NestedTopic: -1}, -1)
 		}()
 		waitCh(late, "Publish/Subscribe after Close did not return")
